@@ -10,8 +10,10 @@ MANIFEST = dict(
          "trip must preserve the view. Wire half for whole packets: built_packet_reparse (any representable stack of the seven families, "
          "once serialized, is parsed back to the same classes and views). Oracle clauses on the implementation's own output: view preserved, "
          "serialize repeatable, typed getter returns the first value set for verbatim options, a typed getter never rejects what its own "
-         "accepted setter encoded (getter-rejects-own-setter, read under every family's dump convention), and for the 24 typed ICMPv6 "
-         "options returns exactly the representable argument that was set (typed-getter-returns-set-value). Codec half: 104 of the 112 "
+         "accepted setter encoded (getter-rejects-own-setter, read under every family's dump convention), and for 89 typed options "
+         "(ICMPv6, TCP, IP, DHCP, DHCPv6, Dot11 management tagged options, PPPoE vendor tag) the typed getter of the live object AND of "
+         "the re-parsed serialization returns exactly the representable argument that was set (typed-getter-returns-set-value; raw "
+         "add/remove by option code un-tracks only that code for TCP/IP/DHCP/DHCPv6). Codec half: 104 of the 112 "
          "typed option codecs of libtins have a theorem decode (encode v) = v for ALL representable v (7 have no getter / are flag "
          "options, DHCPv6 authentication is correspondence-only); inventory with theorem names, Repr predicates, dump fields and "
          "oracle clauses: tools/CODEC-INVENTORY.md (tools/codec_inventory.py --check is run by this check).",
@@ -40,9 +42,13 @@ def run(chk):
     chk.cov["typed_codecs"] = r.stdout.strip().split("\n")[0][:400]
     chk.assumptions += ["typed codecs without an inverse theorem (compared with the real code on every run, judged by the oracle "
                         "clause getter-rejects-own-setter only): DHCPv6 authentication",
-                        "the value clause typed-getter-returns-set-value restates the Repr predicates of Wire/Icmp/ThCodec6.lean on the "
-                        "argument words of the line protocol (Driver/WireSpec.lean: typedExpect); other families' typed getters are "
-                        "judged by getter-rejects-own-setter, last-value-set (verbatim octets) and the model correspondence"]
+                        "the value clause typed-getter-returns-set-value restates the representability hypotheses of the inverse theorems "
+                        "(Wire/Icmp/ThCodec6.lean, Transport/ThTcpApi.lean, Ip/ThIp4Api.lean, App/TheoremsCodec{,2}.lean, "
+                        "Wire/Wifi/TheoremsCodec.lean, L2/ThPPPoEReparse.lean) on the argument words of the line protocol "
+                        "(Driver/WireSpec.lean: typedExpect<Family>; the theorem files import Mathlib lemma modules, so the driver "
+                        "cannot import the predicates); not under the value clause: DHCPv6 authentication (no theorem), EAPOL key "
+                        "(whole-header reparse theorem), ICMPv6 / Dot11 / PPPoE layers after any raw add/remove (whole layer "
+                        "un-tracked; TCP, IP, DHCP, DHCPv6 un-track per option code via the code table codeOf)"]
     if r.returncode != 0:
         chk.violation("codec inventory: " + r.stdout.strip()[-600:], ["# tools/codec_inventory.py --check"], nofail=True)
 
